@@ -55,7 +55,7 @@ def run_kbest(src):
 
     plrun.reset_state()
     try:
-        with plrun.captured_output():
+        with plrun.captured_output(), cw.scratch_cwd():
             formula = get_evaluatable("kbest").create_from(PrologString(src))
             result = formula.evaluate()
         return ("ok", dict((str(k), v) for k, v in result.items()))
@@ -190,7 +190,7 @@ def run_explain(src):
 
     plrun.reset_state()
     try:
-        with plrun.captured_output():
+        with plrun.captured_output(), cw.scratch_cwd():
             db = DefaultEngine().prepare(PrologString(src))
             cnf = KBestFormula.create_from(db, label_all=True)
             explanation = []
@@ -427,10 +427,13 @@ def render(case):
 
 
 KNOWN_CLASSES = {
+    # F-C23-1: explain names proofs by node index; ambiguous as soon as two queries can share a node
+    "queries_share_node": lambda case, failure: sum(1 for s in case["prog"] if s[0] == "query") >= 2,
     "negcycle_fp": lambda case, failure: gp.neg_on_cyclic_goal_under_active_cycle(case["prog"]),
     "neg_under_cycle": lambda case, failure: gp.neg_under_active_cycle(case["prog"]),
     "ad_cyclic_complement": lambda case, failure: gp.cyclic_multihead_ad_with_complementary_body(case["prog"]),
     "shared_var_call": lambda case, failure: gp.shared_var_call(case["prog"]),
+    "cyclic_or_complement": lambda case, failure: gp.cyclic_body_disjunction_with_complement(case["prog"]),
 }
 
 SUBCHECKS = [
